@@ -106,6 +106,46 @@ def run_workload(kind, scratch, name, slots, stop_at, budget):
     return out
 
 
+def kill_refusals(ctx: Ctx, scratch: str) -> int:
+    """_kill_and_reroute by the stopping runner on EVERY (status, owner) an entry of its thread table can be in by the time the
+    stop reaches it (another runner may hold it, it may be final or already re-queued): it never raises, and an invocation the
+    stopping runner still holds ends REROUTED, un-owned and queued."""
+    import types
+    from harness.props import c01
+    from pynenc.runner.base_runner import BaseRunner
+    n = 0
+    for kind in ("mem", "sqlite"):
+        be = c01.Backend(kind, scratch)
+        app = be.app
+        me = world.runner_ctx("r1")
+        stub = types.SimpleNamespace(app=app, runner_context=me, logger=app.logger)
+        for status in c01.ST:
+            for owner in (None, "r1", "r2"):
+                inv = be.new_invocation()
+                be.inject(inv, status, owner)
+                app.broker.purge()
+                n += 1
+                exc = None
+                try:
+                    BaseRunner._kill_and_reroute(stub, inv)
+                except BaseException as ex:  # noqa: BLE001
+                    exc = repr(ex)
+                after = be.read(inv)
+                held = owner == "r1" and status in ("PENDING", "RUNNING")
+                queued = app.broker.count_invocations()
+                if exc is not None:
+                    ctx.violation(f"kill-raises:{status}:{'own' if owner == 'r1' else 'other' if owner else 'none'}",
+                                  f"{kind}: _kill_and_reroute by r1 on an invocation in {status} owned by {owner} raised {exc} (it aborts _on_stop: "
+                                  "the remaining entries of the thread table stay owned by the stopped runner)",
+                                  {"kind": "kill-refusal", "backend": kind, "status": status, "owner": owner})
+                elif held and not (after[0] == "REROUTED" and after[1] is None and queued == 1):
+                    ctx.violation(f"kill-leaves:{status}", f"{kind}: _kill_and_reroute on r1's own {status} invocation left {after[:2]} with {queued} queue entries",
+                                  {"kind": "kill-refusal", "backend": kind, "status": status, "owner": owner})
+        be.flush()
+    ctx.notes["kill_refusals"] = {"cases": n, "space": "14 statuses x owner in {none, the stopping runner, another runner} x 2 backends (exhaustive)"}
+    return n
+
+
 def main(ctx: Ctx) -> int:
     world.quiet()
     info = ctx.translate("runner_facts", runner_facts.translate, "gen/RunnerFacts_gen.v")
@@ -114,6 +154,7 @@ def main(ctx: Ctx) -> int:
     scratch = world.scratch_dir()
     total, per, outcomes = 0, {}, {}
     try:
+        total += kill_refusals(ctx, scratch)
         for kind in ("mem", "sqlite"):
             for name in WORKLOADS:
                 for slots in (1, 2):
@@ -152,6 +193,11 @@ def replay(ctx: Ctx, path: str) -> int:
     rp = json.load(open(path))["replay"]
     scratch = world.scratch_dir()
     try:
+        if rp.get("kind") == "kill-refusal":
+            kill_refusals(ctx, scratch)
+            for v in ctx.violations + ctx.known_hits:
+                print("REPRODUCED:", v["what"])
+            return 0
         print(json.dumps(run_workload(rp["backend"], scratch, rp["workload"], rp["slots"], rp["stop_at"], rp["budget"]), indent=1))
     finally:
         world.rm_scratch(scratch)
